@@ -200,7 +200,7 @@ class World:
         mt = os.path.getmtime
         nG, nT, nW = len(self.G), len(self.T), len(self.W)
         Rc = safe(tsv_canon, self.p_revised())
-        st = {"gv": self.gv, "tv": self.tv, "wv": self.wv,
+        st = {"gv": self.gv, "tv": self.tv, "wv": self.wv, "nm": self.name_classes(),
               "R": self._ver(Rc, [(t, self.ref(0, t, 0)["R"]) for t in range(nT)]), "chroms": []}
         for ch in self.chroms:
             pg, pt, po = self.p_g(ch), self.p_t(ch), self.p_o(ch)
@@ -209,12 +209,10 @@ class World:
             oc = safe(overlap_canon, po)
             ov = None
             if oc is not None:
-                ov = (UNKNOWN, UNKNOWN, UNKNOWN)
-                for g in range(nG):
-                    for t in range(nT):
-                        for w in range(nW):
-                            if self.ref(g, t, w)["O"][ch] == oc and ov[0] == UNKNOWN:
-                                ov = (g, t, w)
+                # two versions may give the same overlap file: prefer the reading consistent with the caches
+                cands = [(g, t, w) for g in range(nG) for t in range(nT) for w in range(nW) if self.ref(g, t, w)["O"][ch] == oc]
+                cands.sort(key=lambda c: (c[0] != gc, c[1] != tc, c))
+                ov = cands[0] if cands else (UNKNOWN, UNKNOWN, UNKNOWN)
             c = {"GC": gc, "TC": tc, "OV": ov,
                  "gF": gc is not None and mt(pg) > mt(self.genes_in),
                  "tF": tc is not None and os.path.exists(self.p_revised()) and mt(pt) > mt(self.p_revised()),
@@ -271,6 +269,16 @@ class World:
     def versions(self):
         return [self.G, self.T, self.W]
 
+    def name_classes(self):
+        """gene version -> class of its gene-name set (what MergeData._validate_gene_names compares)"""
+        seen, out = [], []
+        for gs in self.G:
+            key = sorted(g["name"] for g in gs)
+            if key not in seen:
+                seen.append(key)
+            out.append(seen.index(key))
+        return out
+
     def close(self):
         shutil.rmtree(self.root, ignore_errors=True)
 
@@ -311,7 +319,9 @@ IMPORTS = "From TEV Require Import Model.Cache."
 
 def step_expr(st, reset, revise, fixed=True):
     b = lambda x: "true" if x else "false"
-    return "map Z.of_nat (flat_step %s %s %s %s %s)" % (b(fixed), b(reset), b(revise), disk_lit(st), "%d%%nat" % len(st["chroms"]))
+    # index 0 unused (versions are 1-based in the model)
+    nml = "[" + "; ".join("%d%%nat" % x for x in [0] + [c + 1 for c in st.get("nm", [])]) + "]"
+    return "map Z.of_nat (flat_step %s %s %s %s %s %s)" % (b(fixed), b(reset), b(revise), nml, disk_lit(st), "%d%%nat" % len(st["chroms"]))
 
 
 def prefixes_expr(st, reset, revise, fixed=True):
